@@ -42,7 +42,8 @@ type translator struct {
 	sconsts  map[string]string
 	vars     map[string]trType
 	results  []trType
-	resNames []string // named results ("" when unnamed)
+	resNames []string        // named results ("" when unnamed)
+	initVars map[string]bool // variables introduced by the init statement of an if / switch (dead after it)
 	err      string
 }
 
@@ -57,6 +58,15 @@ var libCalls = map[string]struct {
 	"filepath.Ext":           {"Gen.pathExt", []trType{tStr}, tStr},
 	"strings.TrimSuffix":     {"Gen.trimSuffix", []trType{tStr, tStr}, tStr},
 	"userNameRe.MatchString": {"Gen.userNameReMatch", []trType{tStr}, tBool},
+}
+
+// library calls with two results (used in `a, b := f(..)`): lean function returning a pair
+var libCalls2 = map[string]struct {
+	lean string
+	args []trType
+	res  [2]trType
+}{
+	"strings.CutSuffix": {"Gen.cutSuffix", []trType{tStr, tStr}, [2]trType{tStr, tBool}},
 }
 
 // typeOf: the type of an expression of the subset as far as comparisons and switch tags need it.
@@ -180,7 +190,7 @@ func (t *translator) expr(e ast.Expr, want trType) string {
 			if ty != want && !(isBytesLike(ty) && isBytesLike(want)) {
 				return t.fail("variable %s used at another type", x.Name)
 			}
-			return x.Name
+			return leanIdent(x.Name)
 		}
 		if v, ok := t.sconsts[x.Name]; ok && isBytesLike(want) {
 			return leanBytes(v)
@@ -258,6 +268,22 @@ func (t *translator) expr(e ast.Expr, want trType) string {
 
 func isBytesLike(t trType) bool { return t == tBytes || t == tStr }
 
+var leanKeywords = map[string]bool{}
+
+func init() {
+	for _, k := range strings.Fields("end from at do fun let have show then else if match with in by where open def theorem instance structure class namespace section variable universe import export private protected mutual deriving macro syntax notation attribute using calc obtain suffices return for unless local scoped abbrev example axiom inductive extends this nomatch nofun") {
+		leanKeywords[k] = true
+	}
+}
+
+// leanIdent: a Go identifier as a Lean identifier (escaped when it is a Lean keyword).
+func leanIdent(n string) string {
+	if leanKeywords[n] {
+		return "«" + n + "»"
+	}
+	return n
+}
+
 func copyVars(m map[string]trType) map[string]trType {
 	out := map[string]trType{}
 	for k, v := range m {
@@ -323,15 +349,33 @@ func (t *translator) stmts(list []ast.Stmt, ind string) string {
 	// `if v := e; cond {…}` and `switch v := e; v {…}`: the declaration, then the statement without it
 	// (the variable's scope ends with the statement: it must not clash with a later name, which the
 	// redeclaration test below enforces)
+	markInit := func(as *ast.AssignStmt) bool {
+		for _, l := range as.Lhs {
+			id, ok := l.(*ast.Ident)
+			if !ok {
+				return false
+			}
+			if _, exists := t.vars[id.Name]; exists && !t.initVars[id.Name] {
+				t.fail("init statement shadows %s", id.Name)
+				return false
+			}
+			if t.initVars == nil {
+				t.initVars = map[string]bool{}
+			}
+			t.initVars[id.Name] = true
+			delete(t.vars, id.Name)
+		}
+		return true
+	}
 	switch x := head.(type) {
 	case *ast.IfStmt:
-		if as, ok := x.Init.(*ast.AssignStmt); ok && as.Tok == token.DEFINE {
+		if as, ok := x.Init.(*ast.AssignStmt); ok && as.Tok == token.DEFINE && markInit(as) {
 			y := *x
 			y.Init = nil
 			return t.stmts(append([]ast.Stmt{as, &y}, rest...), ind)
 		}
 	case *ast.SwitchStmt:
-		if as, ok := x.Init.(*ast.AssignStmt); ok && as.Tok == token.DEFINE {
+		if as, ok := x.Init.(*ast.AssignStmt); ok && as.Tok == token.DEFINE && markInit(as) {
 			y := *x
 			y.Init = nil
 			return t.stmts(append([]ast.Stmt{as, &y}, rest...), ind)
@@ -345,7 +389,7 @@ func (t *translator) stmts(list []ast.Stmt, ind string) string {
 				if t.results[i] == tBytes {
 					return t.fail("bare return of a []byte result")
 				}
-				parts = append(parts, n)
+				parts = append(parts, leanIdent(n))
 			}
 			return "(" + strings.Join(parts, ", ") + ")"
 		}
@@ -371,9 +415,65 @@ func (t *translator) stmts(list []ast.Stmt, ind string) string {
 			if id, ok := x.Lhs[0].(*ast.Ident); ok {
 				if ty, ok := t.vars[id.Name]; ok && ty != tBytes {
 					v := t.expr(x.Rhs[0], ty)
-					return fmt.Sprintf("let %s : %s := %s\n%s%s", id.Name, leanTy[ty], v, ind, t.stmts(rest, ind))
+					return fmt.Sprintf("let %s : %s := %s\n%s%s", leanIdent(id.Name), leanTy[ty], v, ind, t.stmts(rest, ind))
 				}
 			}
+		}
+		if x.Tok == token.DEFINE && len(x.Lhs) == 2 && len(x.Rhs) == 1 {
+			// a, b := f(..) for a library function with two results
+			if call, ok := x.Rhs[0].(*ast.CallExpr); ok {
+				if sel, ok := call.Fun.(*ast.SelectorExpr); ok {
+					if lc, ok := libCalls2[exprString(sel)]; ok && len(call.Args) == len(lc.args) {
+						id0, ok0 := x.Lhs[0].(*ast.Ident)
+						id1, ok1 := x.Lhs[1].(*ast.Ident)
+						if ok0 && ok1 {
+							for _, id := range []*ast.Ident{id0, id1} {
+								if _, dup := t.vars[id.Name]; dup {
+									return t.fail("redeclaration of %s", id.Name)
+								}
+							}
+							callS := "(" + lc.lean
+							for i, a := range call.Args {
+								callS += " " + paren(t.expr(a, lc.args[i]))
+							}
+							callS += ")"
+							out := ""
+							if id0.Name != "_" {
+								t.vars[id0.Name] = lc.res[0]
+								out += fmt.Sprintf("let %s : %s := %s.1\n%s", leanIdent(id0.Name), leanTy[lc.res[0]], callS, ind)
+							}
+							if id1.Name != "_" {
+								t.vars[id1.Name] = lc.res[1]
+								out += fmt.Sprintf("let %s : %s := %s.2\n%s", leanIdent(id1.Name), leanTy[lc.res[1]], callS, ind)
+							}
+							return out + t.stmts(rest, ind)
+						}
+					}
+				}
+			}
+		}
+		if x.Tok == token.ASSIGN && len(x.Lhs) == len(x.Rhs) && len(x.Lhs) > 1 {
+			// parallel assignment a, b = e1, e2: all right-hand sides first (under fresh names), then the targets
+			out := ""
+			var names []string
+			for i := range x.Lhs {
+				id, ok := x.Lhs[i].(*ast.Ident)
+				ty, known := trType(0), false
+				if ok {
+					ty, known = t.vars[id.Name]
+				}
+				if !ok || !known || ty == tBytes {
+					return t.fail("parallel assignment outside the subset")
+				}
+				tmp := fmt.Sprintf("tmp%d_%s", i, id.Name)
+				names = append(names, tmp)
+				out += fmt.Sprintf("let %s : %s := %s\n%s", tmp, leanTy[ty], t.expr(x.Rhs[i], ty), ind)
+			}
+			for i := range x.Lhs {
+				id := x.Lhs[i].(*ast.Ident)
+				out += fmt.Sprintf("let %s : %s := %s\n%s", leanIdent(id.Name), leanTy[t.vars[id.Name]], names[i], ind)
+			}
+			return out + t.stmts(rest, ind)
 		}
 		if x.Tok == token.DEFINE && len(x.Lhs) == 1 && len(x.Rhs) == 1 {
 			id, ok := x.Lhs[0].(*ast.Ident)
@@ -390,7 +490,7 @@ func (t *translator) stmts(list []ast.Stmt, ind string) string {
 			}
 			v := t.expr(x.Rhs[0], ty)
 			t.vars[id.Name] = ty
-			return fmt.Sprintf("let %s : %s := %s\n%s%s", id.Name, leanTy[ty], v, ind, t.stmts(rest, ind))
+			return fmt.Sprintf("let %s : %s := %s\n%s%s", leanIdent(id.Name), leanTy[ty], v, ind, t.stmts(rest, ind))
 		}
 	case *ast.SwitchStmt:
 		if x.Init != nil || x.Tag == nil {
@@ -495,7 +595,7 @@ func translateFunc(f *ast.File, fset *token.FileSet, name, leanName, failType st
 			}
 			for _, n := range p.Names {
 				t.vars[n.Name] = ty
-				params = append(params, n.Name)
+				params = append(params, leanIdent(n.Name))
 				ptypes = append(ptypes, leanTy[ty])
 			}
 		}
@@ -535,7 +635,7 @@ func translateFunc(f *ast.File, fset *token.FileSet, name, leanName, failType st
 				continue // usable in explicit returns only (nil vs slice is not tracked through variables)
 			}
 			t.vars[n] = t.results[i]
-			prefix += fmt.Sprintf("let %s : %s := %s\n    ", n, leanTy[t.results[i]], zero)
+			prefix += fmt.Sprintf("let %s : %s := %s\n    ", leanIdent(n), leanTy[t.results[i]], zero)
 		}
 		body = prefix + t.stmts(fd.Body.List, "    ")
 	}
